@@ -5,6 +5,7 @@ import (
 	"fmt"
 	"math"
 	"math/big"
+	"reflect"
 	"strconv"
 	"strings"
 	"time"
@@ -175,6 +176,20 @@ func (w *ghW) invariants(r *hx.Run, op, line string) {
 	if w.h.Len() != len(w.ms.live) {
 		fail(r, "gh", op, "multiset", fmt.Sprintf("after %s: Len = %d, model has %d", line, w.h.Len(), len(w.ms.live)))
 	}
+}
+
+// state: the array (value:priority per slot) and the index field of every element ever pushed.
+func (w *ghW) state() string {
+	a := make([]string, len(w.h))
+	for i, e := range w.h {
+		a[i] = fmt.Sprintf("%d:%d", e.Value, e.Key.p)
+	}
+	idx := make([]int, len(w.elems))
+	for i, e := range w.elems {
+		idx[i] = e.Index()
+	}
+
+	return "[" + strings.Join(a, " ") + "] i" + showInts(idx)
 }
 
 func (w *ghW) exec(r *hx.Run, f []string) (string, string) {
@@ -405,10 +420,11 @@ func (q realTPQ) size() int     { return q.q.Size() }
 func (q realTPQ) isEmpty() bool { return q.q.IsEmpty() }
 
 type pqW struct {
-	name    string
-	q       pqAPI
-	handles []func()
-	ms      multiset
+	name     string
+	q        pqAPI
+	handles  []func()
+	ms       multiset
+	badIndex string
 	heapStats
 }
 
@@ -433,6 +449,36 @@ func newTPQ(f []string) world {
 	return &pqW{name: "tpq", q: realTPQ{q}, ms: multiset{desc: d, live: map[int]item{}}}
 }
 
+// heapField finds the unexported generalheap.Heap slice of the queue under test.
+func (w *pqW) heapField() reflect.Value {
+	var v reflect.Value
+	switch q := w.q.(type) {
+	case realPQ:
+		v = reflect.ValueOf(q.q).Elem()
+	case realTPQ:
+		// interface -> *priorityQueueAscending/Descending -> embedded *priorityqueue.PriorityQueue
+		v = reflect.ValueOf(q.q).Elem().Field(0).Elem()
+	}
+
+	return v.FieldByName("heap")
+}
+
+// state: the values of the heap array in slot order (values are unique per push, so this pins the
+// layout); the index field of every slot is checked against its position on the way.
+func (w *pqW) state() string {
+	h := w.heapField()
+	vals := make([]int, h.Len())
+	for i := range vals {
+		e := h.Index(i).Elem()
+		vals[i] = int(e.FieldByName("Value").Int())
+		if idx := int(e.FieldByName("index").Int()); idx != i {
+			w.badIndex = fmt.Sprintf("slot %d holds value %d whose index field is %d", i, vals[i], idx)
+		}
+	}
+
+	return showInts(vals)
+}
+
 // popped checks a list of popped values against the multiset: each must be a best live element at
 // the time it was popped (so the list is in priority order).
 func (w *pqW) popped(r *hx.Run, op string, vals []int) []item {
@@ -455,6 +501,11 @@ func (w *pqW) exec(r *hx.Run, f []string) (string, string) {
 	defer func() {
 		if n := w.q.size(); n != len(w.ms.live) {
 			fail(r, w.name, f[0], "multiset", fmt.Sprintf("after %s: Size = %d, model has %d", line, n, len(w.ms.live)))
+		}
+		w.badIndex = ""
+		w.state()
+		if w.badIndex != "" {
+			fail(r, w.name, f[0], "handle-index", fmt.Sprintf("after %s: %s", line, w.badIndex))
 		}
 	}()
 	switch f[0] {
